@@ -1,9 +1,10 @@
 package c15
 
 import (
+	"fmt"
 	"math"
 	"math/big"
-	"fmt"
+	"net"
 	"net/netip"
 	"strconv"
 	"strings"
@@ -438,11 +439,34 @@ func ipSpec(cs *Case) *spec {
 			return &want{alts: one(false), text: fmt.Sprintf("%q is not an IP address: no match", in),
 				class: func(*Obs, string) string { return "ipMatch:false-positive:input-not-an-address" }}
 		}
-		if a.Zone() != "" || a.Is4In6() {
-			return &want{skip: "zoned or IPv4-mapped IPv6 input (family undocumented)"}
+		if a.Zone() != "" {
+			return &want{skip: "zoned IPv6 input (undocumented)"}
 		}
-		if mapped && a.Is4() {
-			return &want{skip: "IPv4 input against a list with an IPv4-mapped IPv6 item (family undocumented)"}
+		if a.Is4In6() || (mapped && a.Is4()) {
+			// IPv4-mapped notation on either side: the property names net.IPNet as the definition of CIDR
+			// membership (it reads ::ffff:a.b.c.d as the IPv4 address a.b.c.d)
+			v := false
+			ip := net.ParseIP(in)
+			for _, s := range strings.Split(string(cs.Arg), ",") {
+				t := strings.TrimSpace(s)
+				if !strings.Contains(t, "/") {
+					if strings.Contains(t, ":") {
+						t += "/128"
+					} else {
+						t += "/32"
+					}
+				}
+				if _, n, err := net.ParseCIDR(t); err == nil && n.Contains(ip) {
+					v = true
+				}
+			}
+			return &want{alts: one(v), text: fmt.Sprintf("net.IPNet membership of %s in %q is %v", in, string(cs.Arg), v),
+				class: func(*Obs, string) string {
+					if v {
+						return "ipMatch:false-negative:ipv4-mapped-notation"
+					}
+					return "ipMatch:false-positive:ipv4-mapped-notation"
+				}}
 		}
 		v := false
 		var hit ipItem
